@@ -9,7 +9,6 @@ import (
 	"sync"
 	"time"
 
-	"github.com/bufbuild/buf/private/bufpkg/bufmodule"
 	"github.com/bufbuild/buf/private/bufpkg/bufparse"
 	"github.com/bufbuild/buf/private/bufpkg/bufplugin"
 	"github.com/bufbuild/buf/private/bufpkg/buftransport"
@@ -206,11 +205,11 @@ func checksNetrc() {
 	const P = "github.com/bufbuild/buf/private/bufpkg/"
 	cFull := contract{"C16_files.spec", P + "bufparse", "ParseFullName", 145, []string{`err == nil ==> r != nil`}}
 	cRef := contract{"C16_files.spec", P + "bufparse", "ParseRef", 147, []string{`err == nil ==> r != nil`}}
-	cMD := contract{"C16_files.spec", P + "bufmodule", "ParseDigest", 81, []string{`err == nil ==> r != nil`}}
+	// (bufmodule.ParseDigest is a VERIFIED contract since the fourth round: bufmodule/zz_verif_contracts_r4b.go)
 	cPD := contract{"C16_files.spec", P + "bufplugin", "ParseDigest", 105, []string{`err == nil ==> r != nil`}}
 	sn := min(L-1, 7)
-	check("bufparse.ParseFullName / ParseRef, bufmodule.ParseDigest / bufplugin.ParseDigest: a nil error comes with a non-nil value",
-		[]contract{cFull, cRef, cMD, cPD}, fmt.Sprintf("all strings over {a / : .} up to length %d; digests: the types b4 / b5 / p1 / x with hex values of 0, 2, 63, 64, 65, 128 characters, upper case and non-hex", sn), func(t *T) {
+	check("bufparse.ParseFullName / ParseRef, bufplugin.ParseDigest: a nil error comes with a non-nil value",
+		[]contract{cFull, cRef, cPD}, fmt.Sprintf("all strings over {a / : .} up to length %d; digests: the types b4 / b5 / p1 / x with hex values of 0, 2, 63, 64, 65, 128 characters, upper case and non-hex", sn), func(t *T) {
 			enum("a/:.", sn, func(s string) {
 				t.Case()
 				fnm, err := bufparse.ParseFullName(s)
@@ -227,8 +226,6 @@ func checksNetrc() {
 			ds = append(ds, "", ":", "b5", "b5:")
 			for _, s := range ds {
 				t.Case()
-				d, err := bufmodule.ParseDigest(s)
-				t.Check(!(err == nil) || d != nil, cMD.ensures[0], "bufmodule.ParseDigest(%.20q…)=(%v,%v)", s, d, err)
 				pd, err := bufplugin.ParseDigest(s)
 				t.Check(!(err == nil) || pd != nil, cPD.ensures[0], "bufplugin.ParseDigest(%.20q…)=(%v,%v)", s, pd, err)
 			}
